@@ -325,3 +325,25 @@ Fixpoint run_ids (t : list tev) : list nat :=
   | TRun i _ :: t' => i :: run_ids t'
   | _ :: t' => run_ids t'
   end.
+
+(* a schedule every action of which is enabled when it is taken (no goroutine is scheduled while
+   blocked): the schedules a real execution consists of *)
+Fixpoint enabled_run (P : list prog) (c : nat) (ch : nat -> nat -> choice) (sch : list action) (s : state) : bool :=
+  match sch with
+  | [] => true
+  | a :: sch' => enabled P c s a && enabled_run P c ch sch' (step P c ch s a)
+  end.
+
+Fixpoint sumr (f : nat -> nat) (n : nat) : nat :=
+  match n with O => 0 | S n' => f n' + sumr f n' end.
+
+(* greedy scheduler: always takes the first enabled action (main first, then runs in order) *)
+Fixpoint greedy (P : list prog) (c : nat) (ch : nat -> nat -> choice) (fuel : nat) (s : state) : list action :=
+  match fuel with
+  | O => []
+  | S f =>
+      match find (enabled P c s) (AMain :: map ARun (seq 0 (length P))) with
+      | Some a => a :: greedy P c ch f (step P c ch s a)
+      | None => []
+      end
+  end.
